@@ -550,3 +550,118 @@ pub fn run_c12(ctx: &Ctx, rep: &mut Report) {
         playout(&start, &cfg, rng, &mut mon, rep);
     });
 }
+
+/// Strict parser of well-formed SAN text into its parts (None = not in the strict grammar).
+pub fn parse_strict(text: &str) -> Option<San> {
+    let b = text.as_bytes();
+    if !text.is_ascii() {
+        return None;
+    }
+    for (pre, long) in [("O-O-O", true), ("O-O", false)].iter() {
+        if text.starts_with(pre) {
+            let rest = &text[pre.len()..];
+            return match rest {
+                "" => Some(San::Castle { long: *long, suffix: None }),
+                "+" => Some(San::Castle { long: *long, suffix: Some('+') }),
+                "#" => Some(San::Castle { long: *long, suffix: Some('#') }),
+                _ => {
+                    if *long {
+                        None
+                    } else {
+                        None
+                    }
+                }
+            };
+        }
+    }
+    let mut end = b.len();
+    let mut ep_suffix = false;
+    if text.ends_with(" e.p.") {
+        ep_suffix = true;
+        end -= 5;
+    }
+    let mut suffix = None;
+    if end > 0 && (b[end - 1] == b'+' || b[end - 1] == b'#') {
+        suffix = Some(b[end - 1] as char);
+        end -= 1;
+    }
+    let mut promo = 0;
+    if end > 0 && b"QRBN".contains(&b[end - 1]) && end >= 3 && (b'1'..=b'8').contains(&b[end - 2]) {
+        promo = match b[end - 1] {
+            b'Q' => Q,
+            b'R' => R,
+            b'B' => B,
+            _ => N,
+        };
+        end -= 1;
+    }
+    if end < 2 || !(b'a'..=b'h').contains(&b[end - 2]) || !(b'1'..=b'8').contains(&b[end - 1]) {
+        return None;
+    }
+    let dest = (b[end - 1] - b'1') * 8 + (b[end - 2] - b'a');
+    end -= 2;
+    let mut takes = false;
+    if end > 0 && b[end - 1] == b'x' {
+        takes = true;
+        end -= 1;
+    }
+    let mut i = 0;
+    let mut piece = P;
+    if i < end && b"KQRBN".contains(&b[i]) {
+        piece = match b[i] {
+            b'K' => K,
+            b'Q' => Q,
+            b'R' => R,
+            b'B' => B,
+            _ => N,
+        };
+        i += 1;
+    }
+    let mut src_file = None;
+    if i < end && (b'a'..=b'h').contains(&b[i]) {
+        src_file = Some(b[i] - b'a');
+        i += 1;
+    }
+    let mut src_rank = None;
+    if i < end && (b'1'..=b'8').contains(&b[i]) {
+        src_rank = Some(b[i] - b'1');
+        i += 1;
+    }
+    if i != end {
+        return None;
+    }
+    Some(San::Normal(Parts { piece, src_file, src_rank, takes, dest, promo, suffix, ep_suffix }))
+}
+
+/// One libFuzzer input: position selector + SAN text.
+pub fn fuzz_one(sel: usize, text: &str, rep: &mut Report) {
+    use std::sync::OnceLock;
+    static POS: OnceLock<Vec<(RPos, Vec<RMove>, Board)>> = OnceLock::new();
+    let pos = POS.get_or_init(|| {
+        let mut v = vec![];
+        let mut all = corpus_positions();
+        for f in ["rnbqkbnr/ppp1pppp/8/8/3pP3/8/PPPP1PPP/RNBQKBNR b KQkq e3 0 1", "5k2/8/8/8/8/8/8/4K2R w K - 0 1", "4k3/8/8/8/8/8/8/R3K2r w Q - 0 1", "k7/8/8/3Pp3/8/8/8/K7 w - e6 0 1", "8/2N1N3/1N3N2/8/1N3N2/2N1N3/8/k6K w - - 0 1", "k7/8/8/8/8/8/Q6Q/K6Q w - - 0 1"].iter() {
+            all.push(RPos::from_fen(f).unwrap());
+        }
+        for p in all {
+            if let Ok(b) = board_from_model_fen(&p) {
+                let l = p.legal_moves();
+                v.push((p, l, b));
+            }
+        }
+        v
+    });
+    let (p, legal, b) = &pos[sel % pos.len()];
+    match parse_strict(text) {
+        Some(san) if render(&san) == text => check(b, p, legal, &san, "fuzz-well-formed", rep),
+        _ => match call(b, text) {
+            Err(_) => rep.violation("C12/panic", format!("fen={} text={:?}", p.fen(), text)),
+            Ok(Ok(m)) => {
+                if !legal.contains(&model_move(m)) {
+                    rep.violation("C12/returned-illegal-move", format!("fen={} text={:?} -> {}", p.fen(), text, m));
+                }
+            }
+            Ok(Err(_)) => {}
+        },
+    }
+}
